@@ -54,6 +54,11 @@ def requests_for(family):
             'unknown_method': ('POST', '/', '', json.dumps({'nope': {'i': 5}}).encode(), 'application/json'),
             'invalid_arg': ('POST', '/', '', json.dumps({'m': {'i': 'x'}}).encode(), 'application/json'),
             'bad_envelope': ('POST', '/', '', json.dumps({'m': {'i': 5}, 'k': {}}).encode(), 'application/json'),
+            'scalar_body': ('POST', '/', '', b'3', 'application/json'),
+            'null_body': ('POST', '/', '', b'null', 'application/json'),
+            'list_body': ('POST', '/', '', b'[1, 2]', 'application/json'),
+            'empty_body': ('POST', '/', '', b'', 'application/json'),
+            'args_scalar': ('POST', '/', '', b'{"m": 3}', 'application/json'),
         }
     if family in ('soap11', 'soap12'):
         ns = SOAP11_NS if family == 'soap11' else SOAP12_NS
@@ -63,6 +68,8 @@ def requests_for(family):
             'unknown_method': ('POST', '/', '', soap_env(ns, '<tns:nope><tns:i>5</tns:i></tns:nope>'), 'text/xml'),
             'invalid_arg': ('POST', '/', '', soap_env(ns, '<tns:m><tns:i>x</tns:i></tns:m>'), 'text/xml'),
             'bad_envelope': ('POST', '/', '', b'<a xmlns="urn:x"><b/></a>', 'text/xml'),
+            'empty_body': ('POST', '/', '', b'', 'text/xml'),
+            'empty_soap_body': ('POST', '/', '', soap_env(ns, ''), 'text/xml'),
         }
     if family == 'xml':
         return {
@@ -78,6 +85,9 @@ def requests_for(family):
             'malformed': ('POST', '/', '', b'm: [1, 2\n', 'text/yaml'),
             'unknown_method': ('POST', '/', '', b'nope:\n  i: 5\n', 'text/yaml'),
             'invalid_arg': ('POST', '/', '', b'm:\n  i: x\n', 'text/yaml'),
+            'scalar_body': ('POST', '/', '', b'3\n', 'text/yaml'),
+            'empty_body': ('POST', '/', '', b'', 'text/yaml'),
+            'list_body': ('POST', '/', '', b'- 1\n- 2\n', 'text/yaml'),
         }
     if family == 'msgpack':
         import msgpack
@@ -86,6 +96,9 @@ def requests_for(family):
             'malformed': ('POST', '/', '', msgpack.packb({b'm': {b'i': 5}})[:-2], 'application/x-msgpack'),
             'unknown_method': ('POST', '/', '', msgpack.packb({b'nope': {b'i': 5}}), 'application/x-msgpack'),
             'invalid_arg': ('POST', '/', '', msgpack.packb({b'm': {b'i': b'x'}}), 'application/x-msgpack'),
+            'scalar_body': ('POST', '/', '', msgpack.packb(3), 'application/x-msgpack'),
+            'empty_body': ('POST', '/', '', b'', 'application/x-msgpack'),
+            'list_body': ('POST', '/', '', msgpack.packb([1, 2]), 'application/x-msgpack'),
         }
     raise KeyError(family)
 
@@ -109,7 +122,7 @@ def protocols(family, validator='soft'):
 
 
 FAMILIES_ALL = ['http', 'json', 'soap11', 'soap12', 'xml', 'yaml', 'msgpack']
-USER_OUTCOMES = ['return', 'client_fault', 'server_fault', 'non_fault']
+USER_OUTCOMES = ['return', 'client_fault', 'server_fault', 'non_fault', 'non_fault_noargs', 'non_fault_2args']
 
 
 class Harness(object):
@@ -178,12 +191,18 @@ class Harness(object):
         if k == 'return':
             return 7
         if k == 'client_fault':
-            self.the_fault = Fault('Client.Custom.Sub', u'client fault \u00e9', detail={'k': {'n': 'v'}})
+            self.the_fault = Fault('Client.Custom.Sub', u'client fault \u00e9',
+                                   detail={'k': {'n': 'v', 'zero': 0, 'no': False}, 'one': 1})
             raise self.the_fault
         if k == 'server_fault':
             self.the_fault = Fault('Server.Custom', 'server fault')
             raise self.the_fault
-        self.the_exception = RuntimeError(SECRET)
+        if k == 'non_fault_noargs':
+            self.the_exception = AssertionError()
+        elif k == 'non_fault_2args':
+            self.the_exception = OSError(2, SECRET)
+        else:
+            self.the_exception = RuntimeError(SECRET)
         raise self.the_exception
 
     def env(self, kind):
